@@ -58,6 +58,8 @@ class State:
         self.counter = 0
         self.json = 0
         self.linear_queries = 0
+        self.removed = set()
+        self.reused = 0
 
 
 # ---------------------------------------------------------------- expression trees
@@ -200,6 +202,8 @@ def apply_op(state, op):
             cur, co, flag = build_expr(op["expr"])
             net.add_constraint(cur, op["limit"], name=op["name"])
             model[op["name"]] = (op["limit"], co)
+            if op["name"] in state.removed:
+                state.reused += 1
             state.adds += 1
             state.scalar_in_sum = state.scalar_in_sum or flag
         elif kind == "add_unknown":
@@ -232,6 +236,7 @@ def apply_op(state, op):
                 nm = names[op["k"] % len(names)]
                 net.remove_constraint(nm)
                 del model[nm]
+                state.removed.add(nm)
                 if state.adds >= 2:
                     state.mutations_after_two_adds += 1
         elif kind == "update":
@@ -310,6 +315,8 @@ def labels_of(state, log):
         labs.append("rename")
     if any(o["op"] == "add_unknown" for o in log):
         labs.append("failed_add")
+    if state.reused:
+        labs.append("removed_name_used_again")
     if state.json:
         labs.append("json_roundtrip")
     if state.linear_queries:
@@ -356,7 +363,11 @@ class ConstraintMachine(LoggedMachine):
     @rule(data=st.data(), limit=st.sampled_from([5.0, 10.5, 32.0, 80.0, 420.0]))
     def add(self, data, limit):
         self.state.counter += 1
-        self.do({"op": "add", "name": "con-%d" % self.state.counter, "limit": limit, "expr": data.draw(exprs(self.ids()))})
+        name = "con-%d" % self.state.counter
+        free = sorted(self.state.removed - set(self.state.model))
+        if free and data.draw(st.integers(0, 2)) == 0:
+            name = data.draw(st.sampled_from(free))  # a name that was removed earlier is used again
+        self.do({"op": "add", "name": name, "limit": limit, "expr": data.draw(exprs(self.ids()))})
 
     @precondition(lambda self: len(self.state.model) >= 1)
     @rule(data=st.data(), limit=st.sampled_from([7.0, 99.0]))
